@@ -20,6 +20,8 @@ import shutil
 import subprocess
 import time
 import hashlib
+import sys
+sys.path.insert(0, os.path.dirname(os.path.abspath(__file__)))
 
 HERE = os.path.dirname(os.path.abspath(__file__))
 ROOT = os.path.dirname(HERE)
@@ -39,6 +41,7 @@ def parse_unit(unit):
     txt = open(p).read()
     attach = None
     vis = ''
+    inside = None
     harnesses = []
     for l in txt.split('\n'):
         s = l.strip()
@@ -46,6 +49,7 @@ def parse_unit(unit):
             kv = dict(re.findall(r'(\w+)=(\S+)', s))
             attach = s.split()[1]
             vis = kv.get('vis', '')
+            inside = kv.get('inside')
         elif s.startswith('//@harness '):
             kv = {}
             for m in re.finditer(r'(\w+)=("([^"]*)"|\S+)', s[11:]):
@@ -56,7 +60,7 @@ def parse_unit(unit):
             harnesses.append(kv)
     if not attach:
         raise RuntimeError('kani unit %s has no //@attach line' % unit)
-    return {'unit': unit, 'path': p, 'attach': attach, 'vis': vis, 'harnesses': harnesses, 'text': txt}
+    return {'unit': unit, 'path': p, 'attach': attach, 'vis': vis, 'inside': inside, 'harnesses': harnesses, 'text': txt}
 
 
 def _sh(cmd, cwd, env, timeout):
@@ -123,8 +127,17 @@ def attach_units(ws, units):
             raise RuntimeError('anchor lost: %s does not exist' % u['attach'])
         dst = os.path.join(os.path.dirname(target), modname + '.rs')
         shutil.copy(u['path'], dst)
-        with open(target, 'a') as f:
-            f.write('\n#[cfg(kani)]\n#[path = "%s"]\n%s mod %s;\n' % (dst, u['vis'], modname))
+        decl = '\n#[cfg(kani)]\n#[path = "%s"]\n%s mod %s;\n' % (dst, u['vis'], modname)
+        if u.get('inside'):
+            # declare the harness module inside an inline module (to see its private items)
+            import rsx
+            src = rsx.Source(target)
+            it = src.find(u['inside'], kind='mod')
+            txt = src.text[:it.body_close] + decl + src.text[it.body_close:]
+            open(target, 'w').write(txt)
+        else:
+            with open(target, 'a') as f:
+                f.write(decl)
         u['modname'] = modname
         u['dst'] = dst
 
